@@ -386,6 +386,8 @@ def worker(arg):
                 stats["sweep_diff_implicit_memory_operand"] += 1
                 continue
             stats["sweep_refused_only_when_validating_valid_operands"] += 1
+            if "cbase" in c:
+                c["off"] = off.get("off")   # (absolute-operand dimension: where the driver assembled the instruction)
             v, d = xdec.check(c, by_name, bytes.fromhex(off["bytes"]), mode)
             stats["sweep_diff_xdec_" + v] += 1
             mf = matched_form(c, by_name, bytes.fromhex(off["bytes"]), mode) if v == "ok" else None
